@@ -83,6 +83,7 @@ CHECKS = {
     "C03": dict(
         pkg="./csched", level="exploration",
         runs=[
+            dict(name="realnats", run="^TestC03RealNATS$", checks=(10, 150), shards=(2, 8), shrinktime="5s"),
             dict(name="sched", run="^TestC03Shutdown$", checks=(20000, 120000), shards=(4, 16)),
             dict(name="stress", run="^TestC03Stress$", checks=(1200, 8000), shards=(4, 8)),
             dict(name="servefail", run="^TestC03ServeFailure$", checks=(300, 3000), shards=(1, 4)),
